@@ -23,54 +23,64 @@ def measure : List Item → Nat
   | .ansi _ :: r => measure r
 
 /-- The `for g in t.graphemes(true)` loop of `truncate_str_impl` for one text run. Returns the
-clusters kept (plus possibly the fill character) and the new value of `used`.
+clusters kept (plus possibly the fill character), the new value of `used`, and whether a
+cluster did not fit (the `break`).
 Dev profile: the `debug_assert!(width_of_grapheme <= 2)` is a panic point. -/
-def truncText (dw : Nat) (fill : Option G) : List G → Nat → Except Err (List G × Nat)
-  | [], used => .ok ([], used)
+def truncText (dw : Nat) (fill : Option G) : List G → Nat → Except Err (List G × Nat × Bool)
+  | [], used => .ok ([], used, false)
   | g :: gs, used =>
     if dw < used + g.w then
       match fill with
       | some f =>
-        if g.w = 2 ∧ used < dw then .ok ([f], used)
+        if g.w = 2 ∧ used < dw then .ok ([f], used, true)
         else if 2 < g.w then .error (.panic "strange grapheme width")
-        else .ok ([], used)
-      | none => .ok ([], used)
+        else .ok ([], used, true)
+      | none => .ok ([], used, true)
     else
       match truncText dw fill gs (used + g.w) with
       | .error e => .error e
-      | .ok (out, u) => .ok (g :: out, u)
+      | .ok (out, u, c) => .ok (g :: out, u, c)
 
-/-- The outer `for (t, is_ansi) in items` loop: note that a `break` only leaves the inner loop;
-later items are still visited with the same `used`. -/
-def truncItems (dw : Nat) (fill : Option G) : List Item → Nat → Except Err (List Item)
-  | [], _ => .ok []
-  | .ansi a :: r, used =>
-    match truncItems dw fill r used with
+/-- The outer `for (t, is_ansi) in items` loop. On the pinned tree a `break` only leaves the
+inner loop: later text runs are still visited with the same `used` (`stopFix = false`).
+With notes/fix-truncate-after-cut.diff (`stopFix = true`) text after the cut is skipped. -/
+def truncItems (stopFix : Bool) (dw : Nat) (fill : Option G) :
+    List Item → Nat → Bool → Except Err (List Item)
+  | [], _, _ => .ok []
+  | .ansi a :: r, used, cut =>
+    match truncItems stopFix dw fill r used cut with
     | .error e => .error e
     | .ok out => .ok (.ansi a :: out)
-  | .text gs :: r, used =>
-    match truncText dw fill gs used with
-    | .error e => .error e
-    | .ok (t, u) =>
-      match truncItems dw fill r u with
+  | .text gs :: r, used, cut =>
+    if stopFix = true ∧ cut = true then truncItems stopFix dw fill r used cut
+    else
+      match truncText dw fill gs used with
       | .error e => .error e
-      | .ok out => .ok (.text t :: out)
+      | .ok (t, u, c) =>
+        match truncItems stopFix dw fill r u (cut || c) with
+        | .error e => .error e
+        | .ok out => .ok (.text t :: out)
 
 /-- `truncate_str_impl(s, display_width, tail, fill2w)`; `tail = []` is the empty string. -/
-def truncateImpl (s : List Item) (dw : Nat) (tail : List Item) (fill : Option G) :
+def truncateImplF (stopFix : Bool) (s : List Item) (dw : Nat) (tail : List Item) (fill : Option G) :
     Except Err (List Item) :=
   if measure s ≤ dw then .ok s
   else
     let resultTail : Except Err (List Item) :=
       if tail = [] then .ok []
       else if measure tail ≤ dw then .ok tail
-      else truncItems dw fill tail 0
+      else truncItems stopFix dw fill tail 0 false
     match resultTail with
     | .error e => .error e
     | .ok rt =>
-      match truncItems dw fill s (measure rt) with
+      match truncItems stopFix dw fill s (measure rt) false with
       | .error e => .error e
       | .ok body => .ok (body ++ rt)
+
+/-- `truncate_str_impl` as the source is now. -/
+def truncateImpl (s : List Item) (dw : Nat) (tail : List Item) (fill : Option G) :
+    Except Err (List Item) :=
+  truncateImplF Generated.truncStopsAfterCut s dw tail fill
 
 /-- `truncate_str` -/
 def truncateStr (s : List Item) (dw : Nat) (tail : List Item) : Except Err (List Item) :=
